@@ -307,6 +307,28 @@ Section Ops.
     | None => None
     end.
 
+  (* a.SetSearchParams(b.SearchParams()) as repaired by 44c5d62 (url.go:245-255), at pointer level:
+       b.SearchParams()            -- the argument: b's object slb, allocated if b had none (as HTouch b)
+       sp := a.SearchParams()      -- a's OWN object sla, allocated if a had none (as HTouch a)
+       if arg != sp { sp.params = arg.Clone().params }     -- the pairs are values here (see the head of
+                                      this file), so the deep copy is the list itself; when a = b the
+                                      two objects are the same one and its list stays
+       sp.update()                 -- the write-back of every SearchParams mutator: a's query from a's list
+     No pointer is stored: a keeps its object, slb keeps its owner b.  None = an invalid handle. *)
+  Definition h_adopt (h : heap) (a b : loc) : option heap :=
+    match h_searchparams h b with
+    | Some (h1, slb) =>
+        match h_searchparams h1 a with
+        | Some (h2, sla) =>
+            match rd (hs h2) slb with
+            | Some sb => h_sp_mutate (fun _ => s_params sb) h2 sla
+            | None => None
+            end
+        | None => None
+        end
+    | None => None
+    end.
+
   (* ---------- operation sequences over any number of handles ---------- *)
   Inductive spmut :=
   | MAppend (n v : str) | MDelete (n : str) | MSet (n v : str) | MSort | MSortAbs
@@ -328,7 +350,8 @@ Section Ops.
   | HSet (a : loc) (w : N) (v : str)
   | HTouch (a : loc)                        (* u.SearchParams() *)
   | HSp (a : loc) (m : spmut)               (* u.SearchParams().m() *)
-  | HSpVia (sl : loc) (m : spmut).          (* p.m() through a SearchParams handle obtained earlier *)
+  | HSpVia (sl : loc) (m : spmut)           (* p.m() through a SearchParams handle obtained earlier *)
+  | HAdopt (a b : loc).                     (* a.SetSearchParams(b.SearchParams()) *)
 
   (* None = the program stopped (panic / invalid handle).  Failed parses leave the heap as it is. *)
   Definition h_step (h : heap) (o : hop) : option heap :=
@@ -341,6 +364,7 @@ Section Ops.
     | HTouch a => match h_searchparams h a with Some (h', _) => Some h' | None => None end
     | HSp a m => h_sp_via (spmut_fun m) h a
     | HSpVia sl m => h_sp_mutate (spmut_fun m) h sl
+    | HAdopt a b => h_adopt h a b
     end.
 
   Fixpoint h_run (h : heap) (ops : list hop) : option heap :=
@@ -354,7 +378,7 @@ Section Ops.
      None outside its domain; the counter mirrors the allocation pointer of the Url store. *)
   Inductive l1op :=
   | L1Parse (s : str) | L1Resolve (b : loc) (ref : str) | L1Clone (a : loc) | L1Set (a : loc) (w : N) (v : str)
-  | L1Touch (a : loc) | L1Sp (a : loc) (m : spmut) | L1Nop | L1Stop.
+  | L1Touch (a : loc) | L1Sp (a : loc) (m : spmut) | L1Adopt (a b : loc) | L1Nop | L1Stop.
 
   (* an L2 operation as an L1 operation; the heap is consulted only to find the owner of a
      SearchParams handle (which never changes, HeapProofs.step_handles) *)
@@ -371,6 +395,7 @@ Section Ops.
         | Some s => match s_owner s with Some a => L1Sp a m | None => L1Nop end
         | None => L1Stop
         end
+    | HAdopt a b => L1Adopt a b
     end.
 
   Definition l1state := ((loc -> option url) * loc)%type.
@@ -408,6 +433,20 @@ Section Ops.
         | Some u => let '(u1, l) := ensure_sp c u in Some (put m a (Some (sp_update c u1 (spmut_fun mu l))), n)
         | None => None
         end
+    | L1Adopt a b =>
+        (* Obs.hstep (OSpAdopt slot) with a = slot, b = the other slot, for any two handles (also a = b:
+           the list adopted is then the URL's own).  As everywhere in l1_step an invalid handle stops
+           the run, where the two-slot histories of Obs skip the operation. *)
+        match m b with
+        | Some v =>
+            let '(v', l) := ensure_sp c v in                  (* the argument: b.SearchParams() *)
+            let m1 := put m b (Some v') in
+            match m1 a with
+            | Some u => Some (put m1 a (Some (sp_update c (fst (ensure_sp c u)) l)), n)
+            | None => None
+            end
+        | None => None
+        end
     | L1Nop => Some st
     | L1Stop => None
     end.
@@ -436,9 +475,15 @@ Section Ops.
     match o with
     | HParse _ | HClone _ => Some (next (hu h))
     | HResolve _ _ _ => Some (Datatypes.S (next (hu h)))
-    | HSet a _ _ | HTouch a | HSp a _ => Some a
+    | HSet a _ _ | HTouch a | HSp a _ | HAdopt a _ => Some a
     | HSpVia sl _ => match rd (hs h) sl with Some s => s_owner s | None => None end
     end.
+
+  (* the handle an operation takes its ARGUMENT from: a.SetSearchParams(b.SearchParams()) evaluates
+     b.SearchParams(), which creates b's SearchParams object if b has none yet (exactly HTouch b) and
+     changes nothing else of b *)
+  Definition arg_of (o : hop) : option loc :=
+    match o with HAdopt _ b => Some b | _ => None end.
 
   (* ---------- the buggy variants (for HeapProofs: what Sep excludes) ---------- *)
 
@@ -504,7 +549,7 @@ Section Ops.
     | _, _ => LPanic
     end.
 
-  (* two PUBLIC methods that leave the invariant (they are outside the verified API subset):
+  (* a PUBLIC method that leaves the invariant (outside the verified API subset):
      SearchParams.Clone() returns a copy whose url field still points to the owner ... *)
   Definition h_sp_clone (h : heap) (sl : loc) : option (heap * loc) :=
     match rd (hs h) sl with
@@ -512,13 +557,24 @@ Section Ops.
     | None => None
     end.
 
-  (* ... and u.SetSearchParams(p) stores p without setting p.url = u (url.go:242-245); update() then
-     writes p.url.query *)
+  (* ... and, until 44c5d62, u.SetSearchParams(p) stored p without setting p.url = u:
+       func (u *Url) SetSearchParams(sp *SearchParams) { u.searchParams = sp; u.searchParams.update() }
+     update() then writes p.url.query - the query of p's OWNER, not u's *)
   Definition h_set_searchparams (h : heap) (a sl : loc) : option heap :=
     match rd (hu h) a with
     | Some o =>
         h_sp_mutate (fun l => l)
           {| hu := upd (hu h) a (Some (with_ptrs o (o_path o) (Some sl))); hp := hp h; hs := hs h |} sl
+    | None => None
+    end.
+
+  (* D26 (fixed by 44c5d62): a.SetSearchParams(b.SearchParams()) AS FOUND.  The argument is b's live
+     object slb (materialised as HTouch b does); a.searchParams := slb - no copy, the owner field of slb
+     still names b - and the write-back goes through that owner: b's query is rewritten from the list,
+     a's query is not touched.  The repaired operation is h_adopt. *)
+  Definition h_adopt_D26 (h : heap) (a b : loc) : option heap :=
+    match h_searchparams h b with
+    | Some (h1, slb) => h_set_searchparams h1 a slb
     | None => None
     end.
 End Ops.
